@@ -1,6 +1,7 @@
 package main
 
 import (
+	"go/ast"
 	"os"
 	"fmt"
 	"go/constant"
@@ -33,6 +34,7 @@ type loopInfo struct {
 	ws        *WS
 	allowed   map[string][]Loc
 	headAlloc string
+	preSt     *State // state in which the loop is entered (before() in invariants)
 }
 
 type Frame struct {
@@ -306,7 +308,29 @@ func (fr *Frame) findLoops() {
 			}
 		}
 		best := -1
+		// a map/string/channel range loop: the header's Next consumes a Range instruction positioned at the range
+		// expression - bind to the range statement whose expression holds that position (the span heuristic below
+		// picks the inner statement when an outer loop's body consists of an inner loop only)
+		for _, ins := range li.header.Instrs {
+			nx, ok := ins.(*ssa.Next)
+			if !ok {
+				continue
+			}
+			if rg, ok := nx.Iter.(*ssa.Range); ok && rg.Pos().IsValid() {
+				for i, s := range stmts {
+					if rs, ok := s.node.(*ast.RangeStmt); ok && (rs.For == rg.Pos() || (rs.X.Pos() <= rg.Pos() && rg.Pos() <= rs.X.End())) {
+						if best < 0 || (stmts[best].node.Pos() <= s.node.Pos() && s.node.End() <= stmts[best].node.End()) {
+							best = i
+						}
+					}
+				}
+			}
+		}
+		byNext := best >= 0
 		for i, s := range stmts {
+			if byNext {
+				break
+			}
 			if s.node.Pos() <= lo && hi <= s.node.End() {
 				if best < 0 || (stmts[best].node.Pos() <= s.node.Pos() && s.node.End() <= stmts[best].node.End()) {
 					best = i
@@ -317,6 +341,9 @@ func (fr *Frame) findLoops() {
 			li.desc = stmts[best].desc
 		} else {
 			li.desc = fmt.Sprintf("block%d", li.header.Index)
+		}
+		if os.Getenv("GOVC_DEBUGLOOPS") != "" {
+			fmt.Fprintf(os.Stderr, "loop header block %d of %s: %s\n", li.header.Index, fr.fn.Name(), li.desc)
 		}
 		for _, la := range fr.loopAnns() {
 			if la.Desc == li.desc {
